@@ -66,8 +66,11 @@ def sh(cmd, **kw):
     return subprocess.run(cmd, shell=True, capture_output=True, text=True, **kw)
 
 
+REPO = ["/repo"]
+
+
 def apply(name, path, old, new, occ):
-    full = os.path.join("/repo", path)
+    full = os.path.join(REPO[0], path)
     s = open(full).read()
     if name == "entry-mac-iv-writer-and-reader":
         a = 'iv = (1 + comp_ndx).to_bytes(CMAC_SIZE, "big")'
@@ -114,8 +117,13 @@ def main(argv):
         i = argv.index("--tier")
         tier = argv[i + 1]
         del argv[i:i + 2]
+    if "--repo" in argv:
+        i = argv.index("--repo")
+        REPO[0] = argv[i + 1]
+        del argv[i:i + 2]
+    repo = REPO[0]
     sel = [m for m in M if not argv or any(a in m[0] for a in argv)]
-    assert sh("git -C /repo status --porcelain").stdout.strip() == "", "/repo not clean"
+    assert sh("git -C %s status --porcelain" % repo).stdout.strip() == "", "repo not clean"
     out = {}
     for name, path, old, new, occ, expect, props in sel:
         try:
@@ -123,10 +131,10 @@ def main(argv):
         except AssertionError as e:
             print(name, "NOT APPLICABLE:", e)
             out[name] = dict(status="not-applicable", reason=str(e))
-            sh("git -C /repo checkout -- .")
+            sh("git -C %s checkout -- ." % REPO[0])
             continue
         # the library must still import
-        imp = sh("/venv/bin/python -c \"import sys; sys.path[:0]=['/repo','/repo/appnotes']; import register_crypto_plugin, bec2format\"")
+        imp = sh("/venv/bin/python -c \"import sys; sys.path[:0]=['%s','%s/appnotes']; import register_crypto_plugin, bec2format\"" % (REPO[0], REPO[0]))
         res = {}
         try:
             if imp.returncode:
@@ -135,11 +143,12 @@ def main(argv):
                 for p in props:
                     t0 = time.time()
                     c = sh("./check %s --tier %s" % (p, tier), cwd=HERE,
-                           env=dict(os.environ, PYVC_EVIDENCE_DIR=os.path.join(HERE, ".scratch", "selftest-evidence", name)))
+                           env=dict(os.environ, PYVC_REPO=REPO[0], PYVC_EVIDENCE_DIR=os.path.join(HERE, ".scratch", "selftest-evidence", name),
+                                    PYVC_REPLAY_DIR=os.path.join(HERE, ".scratch", "selftest-replay", name)))
                     lines = [l.strip() for l in c.stdout.splitlines() if l.strip().startswith(("VIOLATION", "REFUTED", "UNDECIDED"))]
                     res[p] = dict(exit=c.returncode, lines=lines[:6], wall_s=round(time.time() - t0, 1))
         finally:
-            sh("git -C /repo checkout -- .")
+            sh("git -C %s checkout -- ." % REPO[0])
         caught = [p for p, v in res.items() if isinstance(v, dict) and v["exit"] == 1]
         if expect == "quiet":
             ok = not caught and all(isinstance(v, dict) and v["exit"] == 0 for v in res.values())
@@ -147,7 +156,7 @@ def main(argv):
             ok = all(p in caught for p in expect)
         out[name] = dict(expect=expect, caught=caught, ok=ok, results=res)
         print("%-42s expect=%-18s caught=%-16s %s" % (name, expect, caught, "ok" if ok else "** MISMATCH **"), flush=True)
-    assert sh("git -C /repo status --porcelain").stdout.strip() == "", "/repo not restored"
+    assert sh("git -C %s status --porcelain" % REPO[0]).stdout.strip() == "", "repo not restored"
     rf = os.path.join(HERE, "seeded", "selftest_%s.json" % tier)
     merged = json.load(open(rf)) if os.path.exists(rf) and argv else {}
     merged.update(out)
